@@ -207,6 +207,10 @@ class ValueMapping:
         # Attributes for converting Values strings to binary values:
         self._v2b_dict = {}  # values: bin (int or tuple)
 
+        # The entries in qualifier order, for items(): tuple(bin, values).
+        # A separate list, because Values strings may occur more than once.
+        self._items_list = []
+
     @classmethod
     def for_property(cls, server, namespace, classname, propname,
                      values_default=None):
@@ -693,11 +697,13 @@ class ValueMapping:
         vm._b2v_range_tuple_list = []
         vm._b2v_unclaimed = None
         vm._v2b_dict = OrderedDict()
+        vm._items_list = []
         for i, valuemap_str in enumerate(valuemap_list):
             values_str = values_list[i]
             if valuemap_str == '..':
                 vm._b2v_unclaimed = values_str
                 vm._v2b_dict[values_str] = None
+                vm._items_list.append((None, values_str))
             else:
                 lo, hi, values_str = vm._values_tuple(
                     i, valuemap_list, values_list, cimtype)
@@ -705,10 +711,12 @@ class ValueMapping:
                     # single value
                     vm._b2v_single_dict[lo] = values_str
                     vm._v2b_dict[values_str] = lo
+                    vm._items_list.append((lo, values_str))
                 else:
                     # value range
                     vm._b2v_range_tuple_list.append((lo, hi, values_str))
                     vm._v2b_dict[values_str] = (lo, hi)
+                    vm._items_list.append(((lo, hi), values_str))
 
         return vm
 
@@ -999,6 +1007,5 @@ class ValueMapping:
           string.
         """
 
-        for values_str in self._v2b_dict:
-            element_value = self._v2b_dict[values_str]
+        for element_value, values_str in self._items_list:
             yield element_value, values_str
